@@ -95,6 +95,8 @@ theorem stepInstr_preserves (P : Ctx → Prop) (H : OpsPreserve P) (s : St) (i :
     · have := H.attrSet s.ctx (ps.getD 0 0) ((if ps.getD 0 0 = 2 then s.ctx.map - 1 else 0 : Int) % 256).toNat (i16 (i32 (‹Int› + (if ps.getD 0 0 = 2 then s.ctx.map - 1 else 0)))) h
       split <;> rename_i heq <;> rw [heq] at this <;> first | exact this | trivial
     · trivial
+  · exact wc _ _ (H.putGlyph _ _ h)
+  · exact wc _ _ (H.putSubs _ _ _ _ h)
   · split
     · trivial
     · split <;> first | exact h | trivial
